@@ -522,7 +522,11 @@ func shortList(l []string) []string {
 }
 
 func c14Prefix(w *World, r *Result, tainted map[ssa.Value]bool) {
-	rule := "R-C14-prefix"
+	PrefixDigestRule(w, r, "R-C14-prefix", tainted)
+}
+
+// PrefixDigestRule: the namespace prefix of a file is a formatted digest of exactly the bytes read from it.
+func PrefixDigestRule(w *World, r *Result, rule string, tainted map[ssa.Value]bool) {
 	found := false
 	for _, fn := range w.Funcs("parser") {
 		for _, b := range fn.Blocks {
